@@ -7,7 +7,7 @@ CONFIG = {'gen': ['ConstsC08'],
          'random bytes), target-info lists (duplicates, empty values, EOL inside, truncations, trailing bytes), SPNEGO (token lengths '
          '0..140, 200..270, 65480..65545, 65536.., nil and empty tokens; NegTokenResp with states/mechanisms incl. rejected OIDs; every '
          'two-byte header 60 xx; truncations; single-byte header corruptions of valid tokens), ProcessChallengeToken end to end; distinct '
-         '= distinct input line; non-trivial = implementation output is a non-empty value c08.negtoken: AuthContext.CreateNegotiateToken equals CreateNegTokenInit(CreateNegotiateMessage(domain, workstation, charset)) and PrepareSessionSetupRequest passes the token on (OEM) / as UTF-16LE (Unicode).',
+         '= distinct input line; non-trivial = implementation output is a non-empty value',
  'assumptions': ['strings.ToUpper and utf16.EncodeUTF16LE are arbitrary functions in the theorems; at run time the harness passes the Go '
                  'results as finite tables',
                  'encoding/asn1 Marshal/Unmarshal behave on the six Go types used as modelled (tied on every run, including malformed '
@@ -21,19 +21,22 @@ CONFIG = {'gen': ['ConstsC08'],
               'same inputs; constants regenerated from the source on every run by a go/ast fact extractor (Gen/ConstsC08: the NTLMSSP '
               'signature, message types 1/2/3, the twelve negotiate flags and the flag word of the negotiate message, header sizes 40 and '
               '88 with the write order of every descriptor, the field offsets 8/12/16/20/24/32/40/44/48 and minimum length 56 of the '
-              'challenge parser, the AV framing 2+2 and MsvAvEOL, the SPNEGO and NTLM OIDs) and proved equal to the ones the model uses by '
-              'rfl/decide (9 theorems consts_match_model_*)',
+              'challenge parser, the AV framing 2+2 and MsvAvEOL, the two length guards 0xFFFF with the fields they range over, the SPNEGO '
+              'and NTLM OIDs) and proved equal to the ones the model uses by rfl/decide (12 theorems consts_match_model_*)',
  'level_text': 'negotiate_descriptors and authenticate_descriptors (all strings, both character sets, all flag words, arbitrary '
-               'ToUpper/UTF-16 functions, fields < 64 KiB: signature, type, Len = MaxLen = |field|, msg[off:off+len] = field, fields '
-               'consecutive from 40 / 88 to the end), parse_build_challenge (every flag word, all contents < 64 KiB, arbitrary filler), '
-               'parse_build_targetinfo + avMap_sorted + avMap_lookup (all AV-pair lists, last duplicate wins), der_len_roundtrip (all n < '
-               '2^32), wrap_init_eq_spec, spnego_roundtrip_partial (every non-empty token < 2^31-64), challenge_parse_total, '
-               'spnego_extract_total are proved in Lean for all inputs about a hand model of the patched code; two findings are proved as '
-               'counterexamples (64 KiB fields, empty token). Constants tie: 9 theorems consts_match_model_* restate the model functions '
-               'with the numbers regenerated from the current source (the NTLMSSP signature, message types 1/2/3, the twelve negotiate '
-               'flags and the flag word of the negotiate message, header sizes 40 and 88 with the write order of every descriptor, the '
-               'field offsets 8/12/16/20/24/32/40/44/48 and minimum length 56 of the challenge parser, the AV framing 2+2 and MsvAvEOL, '
-               'the SPNEGO and NTLM OIDs) in place of their literals; a changed constant in the source makes the theorem named after the '
+               'ToUpper/UTF-16 functions, no length hypothesis: either every field is shorter than 64 KiB and the message has signature, '
+               'type, Len = MaxLen = |field|, msg[off:off+len] = field, fields consecutive from 40 / 88 to the end, or some field is not '
+               'and the builder returns an error — negotiate_refuses_field64k, authenticate_refuses_field64k; never a panic), '
+               'parse_build_challenge (every flag word, all contents < 64 KiB, arbitrary filler), parse_build_targetinfo + avMap_sorted + '
+               'avMap_lookup (all AV-pair lists, last duplicate wins), der_len_roundtrip (all n < 2^32), wrap_init_eq_spec, '
+               'spnego_roundtrip_partial (every non-empty token < 2^31-64), challenge_parse_total, spnego_extract_total are proved in Lean '
+               'for all inputs about a hand model of the patched code; one finding is proved as a counterexample (empty token; the 64 KiB '
+               'fields are refused since fixes/C08-descriptor-length-guard.diff). Constants tie: 12 theorems consts_match_model_* restate '
+               'the model functions with the numbers regenerated from the current source (the NTLMSSP signature, message types 1/2/3, the '
+               'twelve negotiate flags and the flag word of the negotiate message, header sizes 40 and 88 with the write order of every '
+               'descriptor, the field offsets 8/12/16/20/24/32/40/44/48 and minimum length 56 of the challenge parser, the AV framing 2+2 '
+               'and MsvAvEOL, the length guards 0xFFFF of the two builders and the five fields the AUTHENTICATE guard ranges over, the '
+               'SPNEGO and NTLM OIDs) in place of their literals; a changed constant in the source makes the theorem named after the '
                'function fail.',
  'level_note': 'Trusted: Lean kernel; axioms propext, Classical.choice, Quot.sound; the hand model is tied to the Go code by differential '
                'testing and, for the constants covered by consts_match_model_*, by regeneration from the source (control flow: '
